@@ -123,14 +123,41 @@ theorem i32_popcnt_correct (x : BitVec 32) :
   simp only [Gen.m_I32_POPCNT]; csem_eval
   simp only [CPrim.popcount, Spec.ipopcnt, BitVec.ofNat_toNat, BitVec.setWidth_eq]
 
-private theorem signExt_small (y : BitVec 64) (h : y ≤ 64#64) :
+theorem signExt_small (y : BitVec 64) (h : y ≤ 64#64) :
     BitVec.signExtend 64 (BitVec.setWidth 32 y) = y := by bv_decide
-private theorem cpop64_le (x : BitVec 64) : x.cpop ≤ 64#64 := by bv_decide
+theorem cpop64_le (x : BitVec 64) : x.cpop ≤ 64#64 := by bv_decide
 
 theorem i64_popcnt_correct (x : BitVec 64) :
     (Gen.m_I64_POPCNT.call noDefs [.u64 x] >>= CVal.castInt .u64) = .val (.u64 (Spec.ipopcnt x)) := by
   simp only [Gen.m_I64_POPCNT]; csem_eval
   simp only [CPrim.popcount, Spec.ipopcnt, BitVec.ofNat_toNat]
   exact signExt_small _ (cpop64_le x)
+
+/-! the same facts as raw call results (the builtin returns `int`), for rewriting inside emitted statements -/
+
+theorem i32_clz_raw (x : BitVec 32) : Gen.m_I32_CLZ.call noDefs [.u32 x] = .val (.i32 (Spec.iclz x)) := by
+  simp only [Gen.m_I32_CLZ]; csem_eval
+  simp only [CVal.truthy, CPrim.clz, Spec.iclz, BitVec.ofNat_toNat, BitVec.setWidth_eq]; bv_close
+theorem i32_ctz_raw (x : BitVec 32) : Gen.m_I32_CTZ.call noDefs [.u32 x] = .val (.i32 (Spec.ictz x)) := by
+  simp only [Gen.m_I32_CTZ]; csem_eval
+  simp only [CVal.truthy, CPrim.ctz, Spec.ictz, BitVec.ofNat_toNat, BitVec.setWidth_eq]; bv_close
+theorem i32_popcnt_raw (x : BitVec 32) : Gen.m_I32_POPCNT.call noDefs [.u32 x] = .val (.i32 (Spec.ipopcnt x)) := by
+  simp only [Gen.m_I32_POPCNT]; csem_eval
+  simp only [CPrim.popcount, Spec.ipopcnt, BitVec.ofNat_toNat, BitVec.setWidth_eq]
+theorem i64_clz_raw (x : BitVec 64) : Gen.m_I64_CLZ.call noDefs [.u64 x] = .val (.i32 ((Spec.iclz x).setWidth 32)) := by
+  simp only [Gen.m_I64_CLZ]; csem_eval
+  simp only [CVal.truthy, CPrim.clz, Spec.iclz, BitVec.ofNat_toNat]; bv_close
+theorem i64_ctz_raw (x : BitVec 64) : Gen.m_I64_CTZ.call noDefs [.u64 x] = .val (.i32 ((Spec.ictz x).setWidth 32)) := by
+  simp only [Gen.m_I64_CTZ]; csem_eval
+  simp only [CVal.truthy, CPrim.ctz, Spec.ictz, BitVec.ofNat_toNat]; bv_close
+theorem i64_popcnt_raw (x : BitVec 64) : Gen.m_I64_POPCNT.call noDefs [.u64 x] = .val (.i32 ((Spec.ipopcnt x).setWidth 32)) := by
+  simp only [Gen.m_I64_POPCNT]; csem_eval
+  simp only [CPrim.popcount, Spec.ipopcnt, BitVec.ofNat_toNat]
+theorem clz64_small (x : BitVec 64) : BitVec.signExtend 64 (BitVec.setWidth 32 (Spec.iclz x)) = Spec.iclz x := by
+  simp only [Spec.iclz]; exact signExt_small _ (by bv_decide)
+theorem ctz64_small (x : BitVec 64) : BitVec.signExtend 64 (BitVec.setWidth 32 (Spec.ictz x)) = Spec.ictz x := by
+  simp only [Spec.ictz]; exact signExt_small _ (by bv_decide)
+theorem popcnt64_small (x : BitVec 64) : BitVec.signExtend 64 (BitVec.setWidth 32 (Spec.ipopcnt x)) = Spec.ipopcnt x := by
+  simp only [Spec.ipopcnt]; exact signExt_small _ (cpop64_le x)
 
 end W2c2Verif.Props.C01
